@@ -28,6 +28,14 @@ theorem C04_create_adds_exactly (g : G) (ps : Props) (row : Row) (x : Option Nat
     exact ⟨Row.bind row v (.node g.freshN), by simp [applyWrite, foldR, createPath, createNode,
       hv, hx', bind, Except.bind, pure, Except.pure, G.addNode], freshN_not_hasNode g⟩
 
+/-- a variable that is already bound — by an earlier path, an earlier clause, or an earlier
+position of the SAME path — is a reference: mentioning it again in a CREATE pattern creates
+nothing and denotes the very node it is bound to (one node per distinct variable) -/
+theorem C04_create_repeated_variable_is_one_node (g : G) (ps : Props) (row : Row) (x id : Nat)
+    (ls : List Nat) (props : List (Nat × E)) (hx : row.get x = some (.node id)) :
+    createNode g ps row ⟨some x, ls, props⟩ = .ok (g, row, id) := by
+  simp [createNode, hx]
+
 /-! ### DELETE -/
 
 /-- deleting a node that still has relationships, without DETACH, is refused -/
@@ -275,6 +283,13 @@ theorem C04_plain_delete_refused_on_witness :
 /-! ### non-vacuity -/
 
 example : gAB.wf = true := by decide
+/-- witnesses of the class C04-d: a cycle `(a)-[:T0]->(b)-[:T1]->(a)` is two nodes and two relationships between
+them; a self-loop `(n)-[:T0]->(n)` is one node and one relationship -/
+example : (okOf (exec [] G.empty ⟨[.create [⟨⟨some 1, [0], []⟩, some (0, [], true, ⟨some 2, [1], []⟩)⟩,
+      ⟨⟨some 2, [], []⟩, some (1, [], true, ⟨some 1, [], []⟩)⟩]], none⟩)).map
+    (fun r => (r.1.nodes.length, r.1.rels.map (fun e => (e.src, e.tgt)))) = some (2, [(0, 1), (1, 0)]) := by decide
+example : (okOf (exec [] G.empty ⟨[.create [⟨⟨some 1, [2], []⟩, some (0, [], true, ⟨some 1, [], []⟩)⟩]], none⟩)).map
+    (fun r => (r.1.nodes.length, r.1.rels.map (fun e => (e.src, e.tgt)))) = some (1, [(0, 0)]) := by decide
 /-- three parallel `:T0` relationships with k0 = 1, 2, 3: `MATCH (a:L0)-[r:T0]->(b:L1) WHERE r.k0 = 2 DELETE r`
 leaves exactly the other two -/
 example : (okOf (exec [] ⟨[⟨1, [0], []⟩, ⟨2, [1], []⟩],
